@@ -17,7 +17,7 @@ import pymbolic.mapper as mapmod
 
 from ..core import check, short
 from ..gen import expr as G
-from ..gen import scale
+from ..gen import numbers, scale
 from ..mon import streams
 from ..mon.trace import HandlerTrace
 from ..ref import normal, refsem
@@ -349,6 +349,9 @@ def pick_keys(rng, e, names, n):
     return keys
 
 
+hist_kinds = {}
+
+
 def make_map(rng, keys, gen_value):
     """values: fresh expressions, other keys (swap / cycle / chain), self-reference."""
     d = {}
@@ -363,6 +366,9 @@ def make_map(rng, keys, gen_value):
             v = p.Product((kvars[(i + 1) % len(kvars)], kvars[i - 1]))
         elif u < 0.65:
             v = rng.choice([0, 1, 7, F(1, 2), -2])
+            if rng.random() < 0.4:      # any KIND of number is inserted as the object it is
+                v = numbers.value(rng, exclude=("nan", "fraction"))
+                hist_kinds[numbers.kind_of(v)] = hist_kinds.get(numbers.kind_of(v), 0) + 1
         else:
             v = gen_value()
         d[k] = v
@@ -466,6 +472,8 @@ def workload(ctx):
             ctx.count("handler:" + k, v)
     ctx.floor("stream:rows", 500)
     ctx.floor("stream:row_address_reused", 100)
+    ctx.count("replacement_values_of_special_kinds", sum(hist_kinds.values()))
+    ctx.floor("replacement_values_of_special_kinds", 300)
     ctx.floor("large_tables", 100)
     ctx.floor("entry:plain", 2000)
     ctx.floor("entry:cached", 2000)
